@@ -37,7 +37,7 @@ type scOp struct {
 
 var scReqHeaders = [][2]string{
 	{"Accept-Encoding", "gzip"}, {"Accept-Encoding", "br, gzip"}, {"Authorization", "Bearer a"}, {"Authorization", "Bearer b"},
-	{"Origin", "https://app.test"}, {"Accept", "*/*"}, {"If-None-Match", "\"e1\""}, {"Cookie", "s=1"},
+	{"Origin", "https://app.test"}, {"Accept", "*/*"}, {"If-None-Match", "\"e1\""}, {"Cookie", "s=1"}, {"Range", "bytes=0-3"},
 }
 
 var scCacheControls = []string{"max-age=60", "max-age=60", "max-age=5", "s-maxage=30, max-age=0x", "max-age=0", "no-store", "private, max-age=60",
